@@ -13,13 +13,12 @@ package serf
 // the delivered event carries the same time, name, payload and coalesce flag.
 //
 //vf:unwind 16
-//vf:bound state event buffer of length quick=1..2 thorough=1..3, slots empty or symbolic time with <=1 record; all times symbolic (below 2^62)
+//vf:bound state event buffer of length quick=1..2 thorough=1,2,4, slots empty or symbolic time with <=1 record; all times symbolic (below 2^62)
 func VfC05_FirstDelivered() {
-	nmax := 2
+	n := 1 + vfChoice("buflen", 2)
 	if vfTier() == 1 {
-		nmax = 3
+		n = [...]int{1, 2, 4}[vfChoice("buflen", 3)] // powers of two like the default 512 (time%3 is beyond the solvers here)
 	}
-	n := 1 + vfChoice("buflen", nmax)
 	s := vfNewSerf("self", n)
 	vfArbEventBuffer(s, n)
 	t := vfU64("mt")
@@ -91,7 +90,7 @@ func VfC05_PushPull() {
 // collisions included), then A again: A is not delivered a second time.
 //
 //vf:unwind 16
-//vf:bound state event buffer of length quick=2 thorough=3, each slot empty or a symbolic time with <=1 recorded event; names/payloads 1 symbolic byte; times below 2^62
+//vf:bound state event buffer of length quick=2 thorough=4, each slot empty or a symbolic time with <=1 recorded event; names/payloads 1 symbolic byte; times below 2^62
 func VfC05_EventABA() { vfEventABA() }
 
 // VfC05_Concurrent: the same event arrives at once by gossip (NotifyMsg) and in
